@@ -181,4 +181,7 @@ def run(ctx: Ctx) -> None:
                   "backends": "in-memory and SQLite"}
     ctx.stubs += ["the body ends with RetryError so that the same invocation can be executed again (RETRY + re-queue)",
                   "fresh process image = the Task object's cached workflow helper dropped", "sync history threads, counter clock, deterministic uuid4"]
-    ctx.assumptions += ["concurrent executions in threads are not covered by this check (sequential alternation only)"]
+    from props import C18_sched
+    C18_sched.run(ctx)
+    ctx.assumptions += ["part 1 alternates executions sequentially; part 2 (C18_sched) interleaves two different workflows at line level; "
+                        "two concurrent executions of the SAME workflow's body (stale run + recovery) are not claimed (the property speaks of later executions)"]
